@@ -10,6 +10,7 @@ hashing of numpy arrays.
 import decimal
 import hashlib
 import io
+import numbers
 import pickle
 import struct
 import sys
@@ -18,16 +19,49 @@ import types
 Pickler = pickle._Pickler
 
 
-def _sorted_total(items):
+# Above this number of items, _sorted_total does not compare all the pairs
+_MAX_PAIRWISE = 100
+
+
+def _total_kind(item):
+    """Describe item if its type has a total order, return None otherwise.
+
+    Two items with the same description can always be compared.
+    """
+    kind = type(item)
+    if kind is str or kind is bytes:
+        return kind
+    if kind is tuple:
+        kinds = tuple(_total_kind(e) for e in item)
+        return None if None in kinds else kinds
+    if isinstance(item, numbers.Real):
+        # nan is not ordered
+        return numbers.Real if item == item else None
+    return None
+
+
+def _sorted_total(items, key=None):
     """Sort items, raising TypeError if they are only partially ordered.
 
     Some comparable objects are not totally ordered (frozensets are ordered
-    by inclusion): the result of sorted would then depend on the input order.
+    by inclusion, (1j,) < (1, 0) < (2,) but (1j,) and (2,) cannot be
+    compared): the result of sorted, or whether it raises, would then depend
+    on the input order. key gives the part of an item that decides its rank.
     """
     items = sorted(items)
-    for first, second in zip(items, items[1:]):
-        if not first <= second:
-            raise TypeError("items are only partially ordered")
+    ranked = items if key is None else [key(item) for item in items]
+    kinds = set(map(type, ranked))
+    if kinds <= {int, bool} or kinds == {str} or kinds == {bytes}:
+        return items
+    kinds = set(_total_kind(item) for item in ranked)
+    if len(kinds) == 1 and None not in kinds:
+        return items
+    if len(items) > _MAX_PAIRWISE:
+        raise TypeError("too many items to check that they are ordered")
+    for i, first in enumerate(items):
+        for second in items[i + 1 :]:
+            if not first <= second:
+                raise TypeError("items are only partially ordered")
     return items
 
 
@@ -159,7 +193,9 @@ class Hasher(Pickler):
             # consistent and orderable.
             # This fails on python 3 when keys are unorderable
             # but we keep it in a try as it's faster.
-            Pickler._batch_setitems(self, iter(_sorted_total(items)), *args)
+            Pickler._batch_setitems(
+                self, iter(_sorted_total(items, key=lambda kv: kv[0])), *args
+            )
         except TypeError:
             # If keys are unorderable, sorting them using their hash. This is
             # slower but works in any case.
